@@ -681,6 +681,12 @@ class HPlateObserver(Handler):
             exp = sum(v for v, _ in vals)
             tol = sum(t for _, t in vals) + half        # the total is rounded for display once
             got = float(result)
+            # "rounded to the configured precision": the total carries no more digits than configured for its unit, whether the
+            # unit was named or defaulted (seeded s-C10-h: the unit's own digits only when it was defaulted)
+            x_ = got * 10.0 ** prec
+            if math.isfinite(x_) and abs(x_ - round(x_)) > 1e-6 * max(1.0, abs(x_)):
+                M.violate(['C10'], 'OBS', 'C10:get_volume_not_rounded_to_the_configured_precision',
+                          {'unit': unit, 'unit_argument': a.get('unit'), 'configured_digits': prec, 'got': got})
             if not M.ratio('OBS.plate', got, exp, tol):
                 M.violate(['C10'], 'OBS', 'C10:plate_get_volume_ne_sum_of_wells',
                           {'unit': unit, 'got': got, 'expected': exp, 'tol': tol})
